@@ -360,9 +360,9 @@ def base_ops(seed):
     add("PhX^1", cirq.PhasedXPowGate(phase_exponent=g2, exponent=1).on(a))
     add("PhX^g", cirq.PhasedXPowGate(phase_exponent=g2, exponent=g, global_shift=g3).on(a))
     add("PhXZ", cirq.PhasedXZGate(x_exponent=g, z_exponent=g2, axis_phase_exponent=g3).on(a))
-    add("Cliff1", cirq.CliffordGate.from_op_list([cirq.H(a), cirq.S(a)], [a]).on(a))
-    add("Cliff2", cirq.CliffordGate.from_op_list([cirq.H(a), cirq.CNOT(a, b), cirq.S(b)], [a, b]).on(a, b))
-    add("SQClifford", cirq.SingleQubitCliffordGate.X_sqrt.on(a))
+    add("Cliff1", cirq.CliffordGate.from_op_list([cirq.H(a), cirq.S(a)], [a]).on(a), "phasefree")
+    add("Cliff2", cirq.CliffordGate.from_op_list([cirq.H(a), cirq.CNOT(a, b), cirq.S(b)], [a, b]).on(a, b), "phasefree")
+    add("SQClifford", cirq.SingleQubitCliffordGate.X_sqrt.on(a), "phasefree")
     # two-qubit families
     for nm, th, ph in (("FSim(g,0)", g, 0), ("FSim(0,g2)", 0, g2), ("FSim(g,g2)", g, g2), ("FSim(pi/2,pi/6)", np.pi / 2, np.pi / 6)):
         add(nm, cirq.FSimGate(th, ph).on(a, b))
@@ -499,6 +499,8 @@ def _w_par(op, depth):
         raise ValueError("not a gate operation")
     if len(op.qubits) != 1:
         raise ValueError("ParallelGate takes single-qubit gates")
+    if cirq.is_measurement(op):
+        raise ValueError("ParallelGate of a measurement (two records under one key) is outside this alphabet")
     (q,) = op.qubits
     extra = cirq.LineQid(300 + 10 * depth, dimension=q.dimension)
     return cirq.ParallelGate(op.gate, 2).on(q, extra)
@@ -826,15 +828,18 @@ def apply_cases(tier, descs):
     for desc in descs:
         inf = info(desc)
         has_gate = inf.op.gate is not None
+        depth = len(desc[1])
         for r, axes in layouts_for(inf.k, tier):
+            if tier == "quick" and depth == 2 and r > inf.k + 1:
+                continue  # quick tier: depth-2 compositions up to one spectator axis
             tshape = layout_shape(inf.shape, r, axes)
             D = int(np.prod(tshape)) if tshape else 1
             for var, variant in enumerate(VARIANTS):
-                if variant == "mat128" and D > 48:
+                if variant == "mat128" and (D > 48 or (tier == "quick" and depth == 2 and r > inf.k)):
                     continue
                 if variant == "gate128" and not has_gate:
                     continue
-                if variant in ("gate128", "vec64") and inf.k >= 4 and r > inf.k:
+                if variant in ("gate128", "vec64") and (r > inf.k + (0 if inf.k >= 4 else 1) or (tier == "quick" and depth == 2)):
                     continue
                 out.append((desc[0], desc[1], r, axes, var))
     return out
@@ -910,7 +915,9 @@ def subspace_cases(tier, descs):
             continue
         for d in ((3,) if tier == "quick" or inf.k == 3 else (3, 4)):
             choices = SUBSPACES[d] if inf.k <= 2 else SUBSPACES[d][:3]
-            for r in ((inf.k, inf.k + 1) if inf.k <= 2 else (inf.k,)):
+            if tier == "quick" and inf.k == 2:
+                choices = [(0, 1), (1, 2), (0, 2), (2, 1)]
+            for r in ((inf.k, inf.k + 1) if inf.k <= 2 and not (tier == "quick" and len(desc[1]) == 2) else (inf.k,)):
                 for axes in itertools.permutations(range(r), inf.k):
                     for subs in itertools.product(choices, repeat=inf.k):
                         out.append((desc[0], desc[1], d, r, axes, subs))
@@ -1068,6 +1075,15 @@ def run_decompose(case):
         return Res(skipped=True, nontrivial=False)
     if cirq.is_parameterized(inf.op) or cirq.control_keys(inf.op):
         return Res(skipped=True, nontrivial=False)
+    try:
+        return _run_decompose(inf)
+    except (ValueError, IndexError, TypeError) as e:
+        import traceback
+        return bad(f"{name_of((bi, w))}: decomposing the operation (or taking cirq.unitary of a part) raised {type(e).__name__}: {e}\n"
+                   + traceback.format_exc(limit=-4), kind="decompose_raises")
+
+
+def _run_decompose(inf):
     nontriv = False
     once = cirq.decompose_once(inf.op, None)
     n = 0
@@ -1128,9 +1144,6 @@ def run_channel_descriptions(case):
     tot = sum(k.conj().T @ k for k in ks)
     if not np.allclose(tot, np.eye(D), atol=1e-7):
         return bad(f"{nm}: sum K^dag K != I (max dev {np.max(np.abs(tot - np.eye(D))):.3g})", kind="kraus_not_cptp")
-    S = E.kraus_to_super(ks)
-    if inf.U is not None and not np.allclose(S, np.kron(inf.U, inf.U.conj()), atol=1e-7):
-        return bad(f"{nm}: cirq.kraus(op) describes a different map than cirq.unitary(op)", kind="kraus_vs_unitary")
     if mix is not None:
         ptot = sum(p for p, _ in mix)
         if abs(ptot - 1) > 1e-7 or any(p < -1e-12 for p, _ in mix):
@@ -1139,20 +1152,33 @@ def run_channel_descriptions(case):
             u = np.asarray(u)
             if u.shape != (D, D) or not np.allclose(u.conj().T @ u, np.eye(D), atol=1e-7):
                 return bad(f"{nm}: a cirq.mixture(op) component is not a {D}x{D} unitary", kind="mixture_component")
+    elif inf.U is not None:
+        return bad(f"{nm}: has a unitary but cirq.mixture(op, None) is None", kind="mixture_missing")
+    if D > 16:
+        # superoperators would be >= 1024 x 1024: compare the single-operator descriptions directly
+        if inf.U is not None:
+            if len(ks) != 1 or not np.allclose(ks[0], inf.U, atol=ATOL):
+                return bad(f"{nm}: cirq.kraus(op) is not (cirq.unitary(op),)", kind="kraus_vs_unitary")
+            if len(mix) != 1 or not np.allclose(mix[0][1], inf.U, atol=ATOL):
+                return bad(f"{nm}: cirq.mixture(op) is not ((1, cirq.unitary(op)),)", kind="mixture_vs_kraus")
+        return good(nontrivial=not is_identity_map(inf), large=1)
+    S = E.kraus_to_super(ks)
+    if inf.U is not None and not np.allclose(S, np.kron(inf.U, inf.U.conj()), atol=1e-7):
+        return bad(f"{nm}: cirq.kraus(op) describes a different map than cirq.unitary(op)", kind="kraus_vs_unitary")
+    if mix is not None:
         Sm = sum(p * np.kron(np.asarray(u), np.asarray(u).conj()) for p, u in mix)
         if not np.allclose(Sm, S, atol=1e-7):
             return bad(f"{nm}: cirq.mixture(op) and cirq.kraus(op) describe different maps; max |diff| = {np.max(np.abs(Sm - S)):.3g}", kind="mixture_vs_kraus")
-    elif inf.U is not None:
-        return bad(f"{nm}: has a unitary but cirq.mixture(op, None) is None", kind="mixture_missing")
     S2 = cirq.kraus_to_superoperator(ks)
     if not np.allclose(S2, S, atol=1e-8):
         return bad(f"{nm}: cirq.kraus_to_superoperator != sum K (x) K*", kind="superoperator")
     S3 = cirq.operation_to_superoperator(op)
     if not np.allclose(S3, S, atol=1e-7):
         return bad(f"{nm}: cirq.operation_to_superoperator(op) differs from sum K (x) K* of cirq.kraus(op)", kind="superoperator")
-    ks_back = cirq.superoperator_to_kraus(S3)
-    if not np.allclose(E.kraus_to_super(ks_back), S, atol=1e-6):
-        return bad(f"{nm}: superoperator_to_kraus(operation_to_superoperator(op)) describes a different map", kind="superoperator")
+    if D <= 8:
+        ks_back = cirq.superoperator_to_kraus(S3)
+        if not np.allclose(E.kraus_to_super(ks_back), S, atol=1e-6):
+            return bad(f"{nm}: superoperator_to_kraus(operation_to_superoperator(op)) describes a different map", kind="superoperator")
     return good(nontrivial=not np.allclose(S, np.eye(D * D), atol=1e-9))
 
 
@@ -1209,23 +1235,30 @@ def run_apply_channel(case):
     t = t0.copy()
     bufs = [np.full_like(t, NAN) for _ in range(3)]
     where = f"{which}(left_axes={left}, right_axes={right}, tensor shape={tshape})"
+    try:
+        if which == "apply_channel":
+            res = cirq.apply_channel(inf.op, cirq.ApplyChannelArgs(t, bufs[0], bufs[1], bufs[2], left, right), default=None)
+        else:
+            res = cirq.apply_mixture(inf.op, cirq.ApplyMixtureArgs(t, bufs[0], bufs[1], bufs[2], left, right), default=None)
+    except Exception as e:
+        qudit = any(d != 2 for d in inf.shape)
+        return bad(f"{nm}: {where} raised {type(e).__name__}: {e}", kind=which.replace("_sv", "") + ("_raises_on_qudits" if qudit else "_raises"))
     if which == "apply_channel":
-        res = cirq.apply_channel(inf.op, cirq.ApplyChannelArgs(t, bufs[0], bufs[1], bufs[2], left, right), default=None)
-        available = inf.ks is not None and (try_kraus(inf.op) is not None)
+        # what apply_channel itself promises to use: _apply_channel_, apply_unitary, or the cheap cirq.kraus(val, None)
+        available = inf.U is not None or cirq.kraus(inf.op, None) is not None
+        comparable = inf.ks is not None
     else:
-        res = cirq.apply_mixture(inf.op, cirq.ApplyMixtureArgs(t, bufs[0], bufs[1], bufs[2], left, right), default=None)
         mix = cirq.mixture(inf.op, None)
         available = mix is not None or inf.U is not None
-    if not available:
-        if res is not None:
-            return good(nontrivial=False)  # more capable than the description protocols; nothing to compare against
+        comparable = available
+    if res is None:
+        if available:
+            return bad(f"{nm}: the description exists but {where} returned the default", kind="apply_missing")
         if not np.array_equal(t, t0):
             return bad(f"{nm}: {where} returned the default but mutated target_tensor (max change {np.nanmax(np.abs(t - t0)):.3g})", kind="default_but_mutated")
         return good(nontrivial=could_touch(inf), no_description_cases=1)
-    if res is None:
-        return bad(f"{nm}: the description exists but {where} returned the default", kind="apply_missing")
-    if res is bufs[1] or res is bufs[2]:
-        return bad(f"{nm}: {where} returned an auxiliary buffer", kind="aux_returned")
+    if not comparable:
+        return good(nontrivial=False)
     if res.shape != tshape:
         return bad(f"{nm}: {where} result shape {res.shape}", kind="shape")
     if np.isnan(res).any():
@@ -1256,7 +1289,7 @@ def apply_channel_cases(tier, descs):
         if inf.k == 3:
             lay = [(6, (0, 1, 2), (3, 4, 5)), (6, (3, 4, 5), (0, 1, 2)), (6, (4, 0, 2), (1, 5, 3)), (6, (5, 3, 1), (4, 2, 0))]
         else:
-            ranks = (2 * inf.k, 2 * inf.k + 1) if (inf.k == 1 or depth <= 1 or tier == "thorough") else (2 * inf.k,)
+            ranks = (2 * inf.k, 2 * inf.k + 1) if (tier == "thorough" or depth == 0 or (inf.k == 1 and depth == 1)) else (2 * inf.k,)
             lay = [(r, l, rt) for r in ranks for l, rt in lr_layouts(inf.k, r)]
         for r, l, rt in lay:
             out.append((desc[0], desc[1], r, l, rt, 0))
@@ -1271,3 +1304,443 @@ def apply_channel_cases(tier, descs):
 def describe_apply_channel(case):
     bi, w, r, left, right, api = case
     return {"op": name_of((bi, w)), "rank": r, "left_axes": list(left), "right_axes": list(right), "api": API[api]}
+
+
+# ---------------------------------------------------------------------------------------------
+# stage 6: cirq.act_on on the simulation states (every branch of every random draw)
+
+SPECT = cirq.LineQubit(900)
+SIMS = ("sv", "dm", "ch", "tab")
+
+
+def register_orders(n):
+    if n <= 3:
+        return list(itertools.permutations(range(n)))
+    base = list(range(n))
+    return [tuple(base), tuple(base[::-1]), tuple(base[1:] + base[:1])]
+
+
+def channel_leaves(op, depth=0):
+    """Sub-operations that a state-vector simulation samples through prng.random() (Kraus channels without mixture),
+    following the strategy order of StateVectorSimulationState: own _act_on_, unitary, mixture, channel, decomposition.
+    A None entry means 'cannot tell'."""
+    if cirq.unitary(op, None) is not None:
+        return []
+    g = op.untagged.gate
+    if isinstance(g, (cirq.ResetChannel, cirq.MeasurementGate)):
+        return []
+    transparent = isinstance(op.untagged, cirq.CircuitOperation) or (g is None and not isinstance(op.untagged, cirq.ControlledOperation))
+    if not transparent:
+        try:
+            has_mix = cirq.mixture(op, None) is not None
+        except Exception:
+            has_mix = False
+        if has_mix:
+            return []
+        if cirq.kraus(op, None) is not None:
+            return [op]
+    dec = cirq.decompose_once(op, None)
+    if dec is None or depth > 6:
+        return [None]
+    out = []
+    for o in dec:
+        out.extend(channel_leaves(o, depth + 1))
+    return out
+
+
+PAULI_MATS = None
+
+
+def dense_pauli_matrix(dps):
+    global PAULI_MATS
+    if PAULI_MATS is None:
+        PAULI_MATS = [np.eye(2), np.array([[0, 1], [1, 0]]), np.array([[0, -1j], [1j, 0]]), np.diag([1, -1])]
+    return complex(dps.coefficient) * E.kron(*[PAULI_MATS[int(m)] for m in dps.pauli_mask])
+
+
+def clifford_prep(order, prep):
+    """(initial basis state index, preparation ops) for the stabilizer states."""
+    n = len(order)
+    if prep == 0:
+        return 0, []
+    if prep == 1:
+        return (1 << (n - 1)) | 1, []
+    ops = [cirq.H(order[0]), cirq.S(order[0])]
+    if n >= 2:
+        ops += [cirq.CNOT(order[0], order[-1]), cirq.H(order[1]), cirq.CZ(order[1], order[0])]
+    return 1, ops
+
+
+def run_act_on(case):
+    bi, w, si, oi, prep = case
+    inf = info((bi, w))
+    if inf.U_exc or cirq.is_parameterized(inf.op) or cirq.control_keys(inf.op):
+        return Res(skipped=True, nontrivial=False)
+    sim = SIMS[si]
+    nm = name_of((bi, w))
+    ks = inf.ks
+    if ks is None:
+        return Res(skipped=True, nontrivial=False)
+    reg = list(inf.qubits) + [SPECT]
+    order = [reg[i] for i in register_orders(len(reg))[oi]]
+    shape = tuple(q.dimension for q in order)
+    D = int(np.prod(shape))
+    pos = [order.index(q) for q in inf.qubits]
+    where = f"act_on({sim}, qubits order={order})"
+    if sim in ("ch", "tab"):
+        b0, prep_ops = clifford_prep(order, prep)
+        n = len(order)
+        psi = np.zeros(D, dtype=np.complex128)
+        psi[b0] = 1
+        psi = E.apply_ops([(cirq.unitary(o), [order.index(q) for q in o.qubits]) for o in prep_ops], shape) @ psi
+        ref = E.embed(inf.U, pos, shape) @ psi
+        if sim == "ch":
+            st = cirq.StabilizerChFormSimulationState(qubits=order, initial_state=b0)
+        else:
+            st = cirq.CliffordTableauSimulationState(tableau=cirq.CliffordTableau(n, initial_state=b0), qubits=order)
+        for o in prep_ops:
+            cirq.act_on(o, st)
+        try:
+            cirq.act_on(inf.op, st)
+        except TypeError as e:
+            if "Failed to act" in str(e):
+                # the stabilizer states only accept what they can decompose into Clifford gates: documented rejection
+                return Res(skipped=True, nontrivial=False, counters={"stabilizer_state_rejected": 1})
+            raise
+        if sim == "ch":
+            got = np.asarray(st.state.state_vector(), dtype=np.complex128)
+            if not np.allclose(got, ref, atol=1e-7, rtol=0):
+                ph = E.eq_up_to_phase(ref, got, 1e-7)
+                return bad(f"{nm}: {where} on a stabilizer state (prep {prep}) gives a state " + ("differing from U|psi> by a global phase" if ph else
+                           "different from U|psi>") + f"; max |diff| = {np.max(np.abs(got - ref)):.3g}", kind="act_on_ch_phase" if ph else "act_on_ch_mismatch")
+        else:
+            for g in st.tableau.stabilizers():
+                Mg = dense_pauli_matrix(g)
+                if not np.allclose(Mg @ ref, ref, atol=1e-7, rtol=0):
+                    return bad(f"{nm}: {where}: tableau stabilizer {g} does not stabilize U|psi> (prep {prep})", kind="act_on_tableau_mismatch")
+        return good(nontrivial=not is_identity_map(inf))
+    psi0 = generic_tensor(shape, 7).reshape(-1)
+    if sim == "sv":
+        rho_in = np.outer(psi0, psi0.conj())
+    else:
+        psi1 = generic_tensor(shape, 8).reshape(-1)
+        rho_in = 0.7 * np.outer(psi0, psi0.conj()) + 0.3 * np.outer(psi1, psi1.conj())
+    ref_rho = E.apply_kraus(rho_in, ks, pos, shape)
+    leaves = channel_leaves(inf.op) if (sim == "sv" and inf.U is None) else []
+    if None in leaves or len(leaves) > 1:
+        return Res(skipped=True, nontrivial=False, counters={"sv_not_scriptable": 1})
+    holder = {}
+
+    def oracle():
+        st = holder["st"]
+        leaf = leaves[0]
+        lks = try_kraus(leaf)
+        qs = list(st.qubits)
+        shp = tuple(q.dimension for q in qs)
+        v = np.asarray(st.target_tensor, dtype=np.complex128).reshape(-1)
+        return [float(np.linalg.norm(E.embed(k, [qs.index(q) for q in leaf.qubits], shp) @ v) ** 2) for k in lks]
+
+    def one(ch):
+        prng = ScriptedRandomState(ch, oracle=oracle if leaves else None)
+        if sim == "sv":
+            st = cirq.StateVectorSimulationState(qubits=order, initial_state=psi0.copy().reshape(shape), dtype=np.complex128, prng=prng)
+        else:
+            st = cirq.DensityMatrixSimulationState(qubits=order, initial_state=rho_in.copy().reshape(shape + shape), dtype=np.complex128, prng=prng)
+        holder["st"] = st
+        cirq.act_on(inf.op, st)
+        if tuple(st.qubits) != tuple(order):
+            raise AssertionError(f"state qubits changed to {st.qubits}")
+        out = np.asarray(st.target_tensor, dtype=np.complex128)
+        if sim == "sv":
+            v = out.reshape(-1)
+            return v, np.outer(v, v.conj())
+        return None, out.reshape(D, D)
+
+    acc = np.zeros((D, D), dtype=np.complex128)
+    npaths = 0
+    wtot = 0.0
+    vec = None
+    try:
+        for ch, (v, rho) in explore(one, max_paths=4000):
+            npaths += 1
+            wtot += ch.weight
+            acc += ch.weight * rho
+            vec = v
+    except core.HarnessError as e:
+        if "oracle" in str(e) or "un-scripted" in str(e) or "not scripted" in str(e):
+            return Res(skipped=True, nontrivial=False, counters={"sv_not_scriptable": 1})
+        raise
+    if abs(wtot - 1) > 1e-6:
+        return bad(f"{nm}: {where}: branch probabilities sum to {wtot}", kind="act_on_weights")
+    if inf.U is not None:
+        if npaths != 1:
+            return bad(f"{nm}: {where}: a unitary operation consumed randomness ({npaths} branches)", kind="act_on_random_unitary")
+        if sim == "sv":
+            refv = E.embed(inf.U, pos, shape) @ psi0
+            if not np.allclose(vec, refv, atol=ATOL, rtol=0):
+                return bad(f"{nm}: {where}: state vector != U psi (exact phase); max |diff| = {np.max(np.abs(vec - refv)):.3g}", kind="act_on_sv_mismatch")
+    if not np.allclose(acc, ref_rho, atol=1e-7, rtol=0):
+        return bad(f"{nm}: {where}: (ensemble) state after act_on != sum_k K rho K^dag of the reference Kraus set; max |diff| = "
+                   f"{np.max(np.abs(acc - ref_rho)):.3g} over {npaths} branch(es)", kind=f"act_on_{sim}_mismatch")
+    return good(nontrivial=not is_identity_map(inf), paths=npaths, max_branching=npaths)
+
+
+def act_on_cases(tier, descs):
+    out = []
+    for desc in descs:
+        inf = info(desc)
+        if inf.U_exc or inf.k > 4 or cirq.is_parameterized(inf.op):
+            continue
+        depth = len(desc[1])
+        orders = register_orders(inf.k + 1)
+        if tier == "quick" and depth == 2:
+            orders = orders[:2] + orders[-1:]
+        stab = inf.U is not None and all(d == 2 for d in inf.shape) and cirq.has_stabilizer_effect(inf.op)
+        for oi in range(len(orders)):
+            if oi >= len(register_orders(inf.k + 1)):
+                break
+            real_oi = register_orders(inf.k + 1).index(orders[oi])
+            out.append((desc[0], desc[1], 0, real_oi, 0))
+            out.append((desc[0], desc[1], 1, real_oi, 0))
+            if stab:
+                for prep in (0, 1, 2):
+                    out.append((desc[0], desc[1], 2, real_oi, prep))
+                    out.append((desc[0], desc[1], 3, real_oi, prep))
+    return out
+
+
+def describe_act_on(case):
+    bi, w, si, oi, prep = case
+    return {"op": name_of((bi, w)), "state": SIMS[si], "register_order_index": oi, "prep": prep}
+
+
+# ---------------------------------------------------------------------------------------------
+# stage 7: has_* answers, shapes, and that wrappers accept every unitary operation
+
+
+def try_mixture(val):
+    try:
+        return cirq.mixture(val)
+    except TypeError:
+        return None
+
+
+MUST_CONSTRUCT = ("tag", "Tagged", "c1", "c0", "csop", "c3", "cop")
+
+
+def run_flags(case):
+    bi, w = case
+    inf = info((bi, w))
+    nm = name_of((bi, w))
+    op = inf.op
+    if inf.U_exc:
+        return bad(f"{nm}: cirq.unitary(op, None) raised {inf.U_exc}", kind="unitary_raises")
+    D = int(np.prod(inf.shape)) if inf.shape else 1
+    hu = cirq.has_unitary(op)
+    if hu != (inf.U is not None):
+        return bad(f"{nm}: has_unitary={hu} but cirq.unitary(op, None) is {'None' if inf.U is None else 'a matrix'}", kind="has_unitary_flag")
+    if inf.U is not None and inf.U.shape != (D, D):
+        return bad(f"{nm}: unitary shape {inf.U.shape} for qid_shape {inf.shape}", kind="shape")
+    if inf.U is not None and not np.allclose(inf.U.conj().T @ inf.U, np.eye(D), atol=1e-7):
+        return bad(f"{nm}: cirq.unitary(op) is not unitary", kind="not_unitary")
+    if cirq.num_qubits(op) != inf.k or cirq.qid_shape(op) != inf.shape:
+        return bad(f"{nm}: num_qubits={cirq.num_qubits(op)} qid_shape={cirq.qid_shape(op)} but qubits={inf.qubits}", kind="shape")
+    try:
+        ks = try_kraus(op)
+        hk = cirq.has_kraus(op)
+        mix = try_mixture(op)
+        hm = cirq.has_mixture(op)
+    except Exception as e:
+        return bad(f"{nm}: kraus/has_kraus/mixture/has_mixture raised {type(e).__name__}: {e}", kind="description_raises")
+    deferred = None  # the decomposition asymmetries are reported only when nothing else is wrong with this operation
+    if hk and ks is None or hm and mix is None:
+        u = op.untagged
+        while isinstance(u, cirq.TaggedOperation):
+            u = u.sub_operation
+        family = type(u.gate).__name__ if u.gate is not None else type(u).__name__
+        has_dec = cirq.decompose_once(op, None) is not None
+        if hk and ks is None:
+            through_dec = has_dec and (inf.ks is not None or bool(cirq.control_keys(op)))
+            deferred = bad(f"{nm}: has_kraus(op) is True but cirq.kraus(op) raises TypeError" +
+                           (" [has_kraus answers through the decomposition, which cirq.kraus does not use]" if through_dec else ""),
+                           kind="has_kraus_without_kraus", family=family,
+                           reason="only_through_decomposition" if through_dec else "unexplained")
+        else:
+            through_dec = has_dec and hu is False
+            deferred = bad(f"{nm}: has_mixture(op) is True but cirq.mixture(op) raises TypeError" +
+                           (" [has_mixture answers through the decomposition, which cirq.mixture does not use]" if through_dec else ""),
+                           kind="has_mixture_without_mixture", family=family,
+                           reason="only_through_decomposition" if through_dec else "unexplained")
+    if ks is not None and not hk:
+        return bad(f"{nm}: cirq.kraus(op) works but has_kraus(op) is False", kind="kraus_without_has_kraus")
+    if mix is not None and any(u is None or u is NotImplemented for _, u in mix):
+        return bad(f"{nm}: cirq.mixture(op) contains a component that is not a matrix: {mix}", kind="mixture_none_component")
+    if mix is not None and not hm:
+        return bad(f"{nm}: cirq.mixture(op) works but has_mixture(op) is False", kind="mixture_without_has_mixture")
+    if hu and not hm or hm and not hk:
+        return bad(f"{nm}: has_unitary={hu}, has_mixture={hm}, has_kraus={hk} violates unitary => mixture => channel", kind="flag_hierarchy")
+    im = cirq.is_measurement(op)
+    keys = cirq.measurement_key_names(op)
+    if im != bool(keys):
+        return bad(f"{nm}: is_measurement={im} but measurement_key_names={set(keys)}", kind="is_measurement_flag")
+    if im and hu:
+        return bad(f"{nm}: is_measurement and has_unitary are both True", kind="is_measurement_flag")
+    g = op.gate
+    if g is not None and isinstance(op, cirq.GateOperation):
+        if cirq.num_qubits(g) != inf.k or cirq.qid_shape(g) != inf.shape:
+            return bad(f"{nm}: gate num_qubits/qid_shape {cirq.num_qubits(g)}/{cirq.qid_shape(g)} != operation's {inf.k}/{inf.shape}", kind="shape")
+        if cirq.has_unitary(g) != hu:
+            return bad(f"{nm}: has_unitary(gate)={cirq.has_unitary(g)} but has_unitary(op)={hu}", kind="has_unitary_flag")
+        ug = cirq.unitary(g, None)
+        if (ug is None) != (inf.U is None) or (ug is not None and not np.allclose(ug, inf.U, atol=ATOL)):
+            return bad(f"{nm}: cirq.unitary(op.gate) differs from cirq.unitary(op)", kind="gate_vs_op")
+        if cirq.has_kraus(g) != hk or cirq.has_mixture(g) != hm or cirq.is_measurement(g) != im:
+            return bad(f"{nm}: has_kraus/has_mixture/is_measurement of the gate differ from the operation's", kind="gate_vs_op")
+    n_constructed = 0
+    if inf.U is not None and len(w) < 2:
+        for wn in MUST_CONSTRUCT:
+            try:
+                WRAPPERS[WNAME.index(wn)][1](op, len(w))
+                n_constructed += 1
+            except (ValueError, TypeError) as e:
+                return bad(f"{nm}: a unitary operation, but wrapper '{wn}' rejects it: {type(e).__name__}: {str(e)[:300]}", kind="wrapper_rejects_unitary")
+    if deferred is not None:
+        return deferred
+    return good(nontrivial=hk or im or bool(cirq.control_keys(op)) or cirq.is_parameterized(op), wrappers_constructed=n_constructed)
+
+
+# ---------------------------------------------------------------------------------------------
+# stage 8: wrapper laws -- the wrapped operation's matrix / channel is the documented function of the inner one
+
+CTRL_ACTIVE = {"c1": [(1,)], "c0": [(0,)], "csop": [(0, 1), (1, 0)], "c3": [(1,), (2,)]}
+
+
+def controlled_matrix(U, inner_pos, ctrl_pos, active, shape):
+    D = int(np.prod(shape)) if shape else 1
+    Psum = np.zeros((D, D), dtype=np.complex128)
+    cdims = [shape[p] for p in ctrl_pos]
+    for cv in active:
+        pr = np.zeros((int(np.prod(cdims)),) * 2)
+        idx = 0
+        for d, v in zip(cdims, cv):
+            idx = idx * d + v
+        pr[idx, idx] = 1
+        Psum = Psum + E.embed(pr, ctrl_pos, shape)
+    return Psum @ E.embed(U, inner_pos, shape) + (np.eye(D) - Psum)
+
+
+def run_wrapper_law(case):
+    bi, w = case
+    outer = info((bi, w))
+    inner = info((bi, w[:-1]))
+    if outer.U_exc or inner.U_exc or cirq.is_parameterized(inner.op):
+        return Res(skipped=True, nontrivial=False)
+    wn = WNAME[w[-1]]
+    nm = name_of((bi, w))
+    oq = list(outer.qubits)
+    shape = outer.shape
+    D = int(np.prod(shape)) if shape else 1
+    if wn == "cco":
+        # only an operation that does nothing either way may keep a unitary under classical control
+        if outer.U is not None and not (inner.U is not None and is_identity_map(inner) and is_identity_map(outer)):
+            return bad(f"{nm}: a classically controlled non-identity operation reports a unitary", kind="law_cco")
+        return good(nontrivial=True)
+    if wn in ("inv", "sqrt") and "phasefree" in _BASE[bi][2]:
+        # gates defined by a Clifford tableau carry no global phase; their powers are defined up to phase only
+        return good(nontrivial=False, phase_free_skipped=1)
+    if wn == "perm":
+        iq = inner.qubits
+        cand = None
+        for c in (iq[1:] + iq[:1], iq[::-1]):
+            if tuple(q.dimension for q in c) == tuple(q.dimension for q in iq):
+                cand = c
+                break
+        ipos = [oq.index(q) for q in cand]
+    elif wn == "par":
+        ipos = None
+    else:
+        if any(q not in oq for q in inner.qubits):
+            return bad(f"{nm}: wrapped operation lost qubits of the inner operation: {outer.qubits} vs {inner.qubits}", kind="law_qubits")
+        ipos = [oq.index(q) for q in inner.qubits]
+    if inner.U is not None:
+        U = inner.U
+        if wn in ("tag", "Tagged", "cop", "perm"):
+            exp = E.embed(U, ipos, shape)
+        elif wn in CTRL_ACTIVE:
+            cpos = [i for i in range(len(oq)) if i not in ipos]
+            # the new controls are the wrapper's fresh qubits, in the order given
+            fresh = [ctrl(len(w) - 1, 0), ctrl(len(w) - 1, 1)] if wn != "c3" else [ctrl3(len(w) - 1)]
+            fresh = fresh[: len(CTRL_ACTIVE[wn][0])]
+            if sorted(oq.index(q) for q in fresh) != sorted(cpos):
+                return bad(f"{nm}: controlled operation's qubits {outer.qubits} are not controls {fresh} + inner {inner.qubits}", kind="law_qubits")
+            exp = controlled_matrix(U, ipos, [oq.index(q) for q in fresh], CTRL_ACTIVE[wn], shape)
+        elif wn == "inv":
+            exp = E.embed(U.conj().T, ipos, shape)
+        elif wn == "sqrt":
+            exp = None
+        elif wn == "par":
+            exp = np.kron(U, U)
+        else:
+            raise core.HarnessError(wn)
+        if outer.U is None:
+            return bad(f"{nm}: inner operation has a unitary but the wrapped one has none", kind="law_unitary_lost")
+        if exp is None:
+            sq = outer.U @ outer.U
+            if not np.allclose(sq, E.embed(U, ipos, shape), atol=1e-7, rtol=0):
+                return bad(f"{nm}: (op**0.5) squared != op; max |diff| = {np.max(np.abs(sq - E.embed(U, ipos, shape))):.3g}", kind="law_sqrt")
+        elif not np.allclose(outer.U, exp, atol=ATOL, rtol=0):
+            return bad(f"{nm}: cirq.unitary of the wrapped operation != {wn}-law applied to the inner unitary; max |diff| = "
+                       f"{np.max(np.abs(outer.U - exp)):.3g}", kind="law_" + wn)
+        return good(nontrivial=not is_identity_map(inner))
+    # non-unitary inner operation
+    if outer.U is not None:
+        return bad(f"{nm}: inner operation has no unitary but the wrapped one does", kind="law_unitary_gained")
+    if inner.ks is None or D > 16 or wn in ("inv", "sqrt"):
+        return good(nontrivial=False)
+    if outer.ks is None:
+        return bad(f"{nm}: inner operation has a Kraus description but the wrapped one has none (not even through its decomposition)", kind="law_kraus_lost")
+    So = E.kraus_to_super(outer.ks)
+    if wn in ("tag", "Tagged", "cop", "perm"):
+        exp = sum(np.kron(m, m.conj()) for m in (E.embed(k, ipos, shape) for k in inner.ks))
+    elif wn in CTRL_ACTIVE:
+        mix = try_mixture(inner.op)
+        if mix is None:
+            return good(nontrivial=False)
+        fresh = [ctrl(len(w) - 1, 0), ctrl(len(w) - 1, 1)] if wn != "c3" else [ctrl3(len(w) - 1)]
+        fresh = fresh[: len(CTRL_ACTIVE[wn][0])]
+        exp = 0
+        for p, u in mix:
+            m = controlled_matrix(np.asarray(u), ipos, [oq.index(q) for q in fresh], CTRL_ACTIVE[wn], shape)
+            exp = exp + p * np.kron(m, m.conj())
+    elif wn == "par":
+        ks2 = [np.kron(a, b) for a in inner.ks for b in inner.ks]
+        exp = E.kraus_to_super(ks2)
+    else:
+        raise core.HarnessError(wn)
+    if not np.allclose(So, exp, atol=1e-7, rtol=0):
+        return bad(f"{nm}: channel of the wrapped operation != {wn}-law applied to the inner channel; max |diff| = {np.max(np.abs(So - exp)):.3g}",
+                   kind="law_channel_" + wn)
+    return good(nontrivial=True)
+
+
+# ---------------------------------------------------------------------------------------------
+
+
+def stages(tier, seed):
+    _init_seq(seed)
+    reset = lambda: _init_seq(seed)
+    descs, rejected = all_descs(tier)
+    descs_cco, _ = all_descs(tier, include_cco=True)
+    law_cases = [d for d in descs_cco if len(d[1]) >= 1]
+    st = [
+        CaseStage("flags_and_wrapper_acceptance", descs_cco, run_flags, reset=reset, describe=describe_desc),
+        CaseStage("wrapper_laws", law_cases, run_wrapper_law, reset=reset, describe=describe_desc),
+        CaseStage("decompose_products", descs, run_decompose, reset=reset, describe=describe_desc),
+        CaseStage("kraus_mixture_superoperator", descs, run_channel_descriptions, reset=reset, describe=describe_desc),
+        CaseStage("apply_unitary_all_layouts", apply_cases(tier, descs_cco), run_apply, reset=reset, describe=describe_apply),
+        CaseStage("apply_unitary_subspaces", subspace_cases(tier, descs), run_subspace, reset=reset, describe=describe_subspace),
+        CaseStage("apply_unitaries_sequences", sequence_cases(tier), run_sequence, reset=reset, describe=describe_sequence),
+        CaseStage("apply_channel_mixture_all_layouts", apply_channel_cases(tier, descs), run_apply_channel, reset=reset, describe=describe_apply_channel),
+        CaseStage("act_on_simulation_states", act_on_cases(tier, descs), run_act_on, reset=reset, describe=describe_act_on),
+    ]
+    return st
